@@ -78,6 +78,19 @@ Definition extra_explained (n m : nat) (X Y Q Cinv : M) : M :=
 Definition joint_obs (n : nat) (KJ S : M) : M :=
   fun i j => KJ i j + (if Nat.ltb i n && Nat.ltb j n then S i j else 0).
 
+(* ---- observation_nan_policy('fill') (exact_prediction_strategies.py, exact_predictive_covar) ------------
+   missing observations are DECOUPLED: rows / columns of the train-train matrix that belong to a missing
+   observation are zeroed with the diagonal kept, and their columns of the test-train matrix are zeroed.
+   [obs i = true] iff observation i is present. *)
+Definition decouple (obs : nat -> bool) (J : M) : M :=
+  fun i j => if Nat.eqb i j then J i j else if obs i && obs j then J i j else 0.
+Definition fill_cross (obs : nat -> bool) (X : M) : M := fun i j => if obs j then X i j else 0.
+Definition fill_post_cov (n : nat) (obs : nat -> bool) (Kss X A Ainv' : M) : M :=
+  post_cov_g n Kss (fill_cross obs X) Ainv'.   (* Ainv' : any inverse of [decouple obs A] *)
+(* observation_nan_policy('mask'): the observed rows are selected (idx enumerates them, k of them) *)
+Definition mask_post_cov (k : nat) (idx : nat -> nat) (Kss X Ainv' : M) : M :=
+  post_cov_g k Kss (fun i a => X i (idx a)) Ainv'.   (* Ainv' : any inverse of [gather idx idx A] *)
+
 (* whitened variational predictive covariance (variational_strategy.py):
    K** + A^T (S - I) A  with A = L^-1 K_z*  given as the t x m matrix At = A^T *)
 Definition var_cov (m : nat) (Kss At Sw : M) : M :=
